@@ -115,3 +115,19 @@ Theorem C05_blocking_snapshot_order : forall pers ls t k p rem,
     /\ (forall x, nsenders s p x = 0).
 Proof. exact RegBlock.blocking_snapshot_order. Qed.
 Print Assumptions C05_blocking_snapshot_order.
+
+(** per-publisher order, subscription half: when the Sender of p1 has returned on a subscription
+    that is not closing and no Sender of p2 has been spawned yet (which is the situation the
+    registry guarantees when it takes p2's snapshot: p1 is acked = all its Senders returned),
+    the history of that subscription contains a receipt of p1 and none of p2: first receipts
+    are in publish order.  Any consumer (Nacks allowed), every schedule. *)
+From WM Require GoChannel.SubFifo.
+Theorem C05_blocking_order_on_subscription : forall x cap0 fx ls p1 p2 t1,
+  let s := srun (sinit cap0 fx) ls in
+  let h := MonitorSound.trace x (sinit cap0 fx) ls in
+  NoDup (MonitorSound.spawn_pubs ls) ->
+  closing s = false -> Sub.thr s t1 = Sub.SDone p1 ->
+  (forall t, MonitorSound.spc_pub (Sub.thr s t) <> Some p2) ->
+  1 <= Monitor.count_recv h x p1 /\ Monitor.count_recv h x p2 = 0.
+Proof. exact SubFifo.fifo_at_spawn. Qed.
+Print Assumptions C05_blocking_order_on_subscription.
